@@ -607,3 +607,42 @@ def rule_loop_state(F, rep, rid, pred, where_txt):
             rep.check(not exposed, rid, '%s|%s' % (g.short.split('::')[-1], v['n']), g.where(v), '%s: `%s` is declared before the loop at line %s, used only inside it, and read at line(s) %s before it is assigned in that iteration: it still holds the value of the previous iteration'
                       % (g.short, v['n'], L.get('l'), sorted({r.get('l') for r in exposed})), 'assigned before it is read in each iteration')
     rep.ok(rid, 'scan', None, '%d loop-carried locals used only inside their loop in %s (fixture: 1 of 2 functions flagged, as expected)' % (n, where_txt))
+
+
+RETURN_IN_LOOP_OK = {('buildMathIdMap', 'docs'): 'math that has no root node has no ids to collect either; the same input is reported by validateMath'}
+
+
+def rule_visit_all(F, rep, rid, pred, floor, where_txt):
+    """Shared rule: void functions that loop over a collection handle every element: a `return` inside the loop stops the whole visit
+    (where the next element was meant: continue), unless it directly follows the report of an error (addIssue in the same block)."""
+    from facts import AnalysisBroken
+    rep.rule(rid, 'a void function of %s that loops over a collection handles every element: no `return` inside the loop (it would skip all remaining elements where `continue` skips one), except directly after an issue has been added in the same block' % where_txt)
+    n = 0
+    for g in F.funcs.values():
+        if not pred(g) or g.j.get('ret') != 'void':
+            continue
+        loops = [l for l in g.walk() if l.get('k') in ('For', 'RangeFor') and g.enclosing_lambda(l) is None]
+        n += len(loops)
+        for r in g.walk():
+            if r.get('k') != 'Return' or g.enclosing_lambda(r) is not None:
+                continue
+            lp = [a for a in g.ancestors(r) if a.get('k') in ('For', 'RangeFor')]
+            if not lp:
+                continue
+            hdr = render(role(lp[0], 'range') or role(lp[0], 'cond') or {})
+            key = '%s|return in loop over %s' % (g.short.split('::')[-1], hdr[:40])
+            blk = g.parent(r)
+            sibs = blk.get('c', []) if blk is not None else []
+            before = sibs[:sibs.index(r)] if r in sibs else []
+            reported = any(c.get('k') == 'Call' and c.get('fn') == 'addIssue' for b in before for c in walk(b))
+            if reported:
+                rep.ok(rid, key + '@%s' % sum(1 for x in g.walk() if x.get('k') == 'Return' and x.get('l', 0) < r.get('l', 0)), g.where(r), 'error exit after addIssue')
+                continue
+            ex = next((v for (fn, h), v in RETURN_IN_LOOP_OK.items() if fn == g.name and h in hdr), None)
+            if ex:
+                rep.exempt(rid, key, ex)
+                continue
+            rep.fail(rid, key, g.where(r), '%s returns from inside its loop over `%s`: the elements after the current one are never handled' % (g.short, hdr[:50]))
+    rep.ok(rid, 'scan', None, '%d for loops in void functions of %s' % (n, where_txt))
+    if n < floor:
+        raise AnalysisBroken('%s: only %d for loops in void functions of %s (%d confirmed)' % (rid, n, where_txt, floor))
